@@ -204,3 +204,19 @@ op("hdr-loop-from-one", ["C10"], HDR, r"for \(size_t count = 0; count < expected
 op("rt-loop-from-one", ["C10"], RT, r"for _ in range\(expected_iterations\):", "for _ in range(1, expected_iterations):")
 op("hdr-span-narrowed-to-float", ["C10"], HDR, r"std::abs\(std::floor\(\(outputTime - _state\.currentTime\) / max_dt\)\)\);\n\n(    for \(size_t count = 0; count < expected_iterations; \+\+count\) \{\n      if constexpr \(!std::is_same_v<typename Impl::Tag::CalibrationT,\n                                    std::false_type>\) \{\n        state = _impl\.process_model\(max_dt, state, _calibration\);)",
    r"std::abs(std::floor(static_cast<float>(outputTime - _state.currentTime) / max_dt)));\n\n\1")
+
+# ---------------------------------------------------------------- hash-order dependence of the constructed generator (C15 DET-W)
+op("cpp-ekf-control-sort-dropped", ["C15"], CPP, r"self\.arglist_control = sorted\(list\(state_model\.control\), key=lambda x: x\.name\)", "self.arglist_control = list(state_model.control)")
+op("cpp-sensorlist-unsorted", ["C15"], CPP, r"self\.sensorlist = sorted\(\n\s*\[\(k, v, sensor_noises\[k\]\) for k, v in sensor_models\.items\(\)\]\n\s*\)", "self.sensorlist = [(k, v, sensor_noises[k]) for k, v in sensor_models.items()]")
+
+# ---------------------------------------------------------------- round-4 rules
+op("py-sensormodel-writes-input", ["C17"], PY, r"(        self\._impl = BasicBlock\(\n            arglist=self\.arglist,\n            statements=\[sensor_model\[k\] for k in self\.readings\],)",
+   r"        for reading in self.readings:\n            self.sensor_models[reading] = sympy.sympify(self.sensor_models[reading])\n\1")
+op("py-compile-ekf-sanitised-noise", ["C04"], PY, r"(    return ExtendedKalmanFilter\(\n        state_model=symbolic_model,\n        process_noise=)process_noise,", r"\1nearest_positive_definite(process_noise),")
+op("py-model-substeps", ["C01", "C19"], PY, r"self\._impl\.execute\(dt, \*state, \*self\.calibration_vector, \*control\),\n(\s*)\)\n(\s*)\}\n(\s*)\)\n\n        return next_state",
+   r"self._impl.execute(dt / 2.0, *state, *self.calibration_vector, *control),\n\1)\n\2}\n\3)\n\n        return next_state")
+op("py-default-modules-late-binding", ["C01"], PY, r'DEFAULT_MODULES = \("scipy", "numpy", "math", \{"sec": lambda v: 1\.0 / np\.cos\(v\)\}\)',
+   'DEFAULT_MODULES = ("scipy", "numpy", "math", {name: (lambda v: 1.0 / fn(v)) for name, fn in (("csc", np.sin), ("sec", np.cos))})')
+op("cpp-control-covariance-one-triangle", ["C09"], CPP, r'                elif \(jKey, iKey\) in covariance:\n                    value = covariance\[\(jKey, iKey\)\]\n(.*?)                yield f"covariance\(\{i\}, \{j\}\)", value\n                if i != j:\n                    yield f"covariance\(\{j\}, \{i\}\)", value\n',
+   r'\1                yield f"covariance({i}, {j})", value\n')
+op("val-handler-swallows-typeerror", ["C14"], COMMON, r"            except AttributeError:\n                continue", "            except (AttributeError, TypeError):\n                continue")
